@@ -404,6 +404,8 @@ def module_state():
                 continue
             if isinstance(v, (list, dict, set, np.ndarray, pd.DataFrame, pd.Series)):
                 snap[f'{m}.{k}'] = purity.snapshot(v)
+            elif isinstance(v, (int, float, bool, str, tuple, type(None), np.generic)):
+                snap[f'{m}.{k}'] = ('val', repr(v))          # module-level scalars too (a 'last dt', a call counter, a lazily set flag)
             elif hasattr(v, 'cache_info') and callable(getattr(v, 'cache_info', None)):
                 try:
                     snap[f'{m}.{k}.cache'] = ('val', repr(v.cache_info().currsize))
@@ -413,6 +415,8 @@ def module_state():
                 for ck, cv in vars(v).items():
                     if isinstance(cv, (list, dict, set, np.ndarray)) and not ck.startswith('__'):
                         snap[f'{m}.{k}.{ck}'] = purity.snapshot(cv)
+                    elif isinstance(cv, (int, float, bool, str, tuple, type(None), np.generic)) and not ck.startswith('__'):
+                        snap[f'{m}.{k}.{ck}'] = ('val', repr(cv))
             elif inspect.isfunction(v) and getattr(v, '__module__', '') == mod.__name__:
                 for ck, cv in vars(v).items():          # function attributes used as caches
                     snap[f'{m}.{k}.{ck}'] = purity.snapshot(cv)
